@@ -17,12 +17,15 @@ import (
 
 	"github.com/sourcenetwork/defradb/acp/dac"
 	acpIdentity "github.com/sourcenetwork/defradb/acp/identity"
+	acpTypes "github.com/sourcenetwork/defradb/acp/types"
+	"github.com/sourcenetwork/defradb/client"
 	"github.com/sourcenetwork/defradb/client/request"
 	"github.com/sourcenetwork/defradb/internal/core"
 	coreblock "github.com/sourcenetwork/defradb/internal/core/block"
 	"github.com/sourcenetwork/defradb/internal/db/base"
 	"github.com/sourcenetwork/defradb/internal/db/fetcher"
 	"github.com/sourcenetwork/defradb/internal/keys"
+	"github.com/sourcenetwork/defradb/internal/planner/mapper"
 )
 
 // VerifH_C03_RequestAtCommit — conf dag: the history (default: one commit with two concurrent children)
@@ -95,4 +98,79 @@ func VerifH_C03_RequestAtCommit() {
 	vObserve("rows", len(res))
 	_ = strconv.Itoa
 	_ = core.COMPOSITE_NAMESPACE
+}
+
+// the ACP system for the commit-history job: the document is registered; whether the requester may read it is the input
+type hACP struct {
+	dac.DocumentACP
+	readable bool
+}
+
+func (a *hACP) IsDocRegistered(ctx context.Context, policyID, resourceName, docID string) (bool, error) {
+	return true, nil
+}
+func (a *hACP) CheckDocAccess(ctx context.Context, perm acpTypes.DocumentResourcePermission, actorID, policyID, resourceName, docID string) (bool, error) {
+	return a.readable, nil
+}
+
+// VerifH_C10_CommitHistory — C10 on the commit-history path: commits(docID: d) { cid height } through the real mapper
+// (ToCommitSelect), planner (CommitSelect, dagScanNode) and head fetcher over the block table of the merge-walk
+// environment, with document access control on: a requester who may not read the document gets no commits, one who may
+// gets every commit of the history.
+func VerifH_C10_CommitHistory() {
+	e := vNewEnv(vFieldCounter, true)
+	e.docID = "bae-00000000-0000-0000-0000-0000000000d0"
+	n := vConfInt("n")
+	e.vDAG(n, -1)
+	e.build()
+	isParent := make([]bool, n)
+	for i := range e.commits {
+		for _, p := range e.commits[i].parents {
+			isParent[p] = true
+		}
+	}
+	ctx := context.Background()
+	hs := coreblock.NewHeadSet(e.txn.head, e.headKey())
+	for i := range e.commits {
+		if !isParent[i] {
+			vBound(hs.Write(ctx, e.commits[i].compCid, e.commits[i].height) == nil, "head")
+		}
+	}
+	def := e.def
+	def.Version.Policy = immutable.Some(client.PolicyDescription{ID: "pol1", ResourceName: "T"})
+	store := &qStore{cols: []*qCol{{def: def}}}
+	acp := &hACP{readable: vBool("requester-may-read-the-document")}
+	var d dac.DocumentACP = acp
+	p := New(e.ctx, immutable.None[acpIdentity.Identity](), immutable.Some(d), store)
+	sel := &request.CommitSelect{Field: request.Field{Name: request.CommitsName},
+		ChildSelect: request.ChildSelect{Fields: []request.Selection{qField(request.CidFieldName), qField(request.HeightFieldName)}},
+		DocID:       immutable.Some(e.docID), FieldName: immutable.Some(request.CompositeFieldName)}
+	m, err := mapper.ToCommitSelect(e.ctx, store, sel)
+	vAssert(err == nil, "request-no-error")
+	if err != nil {
+		return
+	}
+	plan, err := p.CommitSelect(m)
+	vAssert(err == nil, "request-no-error")
+	if err != nil {
+		return
+	}
+	vBound(p.optimizePlan(plan) == nil, "optimize")
+	if err := plan.Init(); err != nil {
+		vAssert(false, "request-no-error")
+		return
+	}
+	res, err := p.executeRequest(e.ctx, plan)
+	_ = plan.Close()
+	vCover("ran")
+	vAssert(err == nil, "request-no-error")
+	if err != nil {
+		return
+	}
+	if acp.readable {
+		vAssert(len(res) == n, "reader-sees-the-whole-history")
+	} else {
+		vAssert(len(res) == 0, "history-of-an-unreadable-document-is-invisible")
+	}
+	vObserve("commits", len(res))
 }
